@@ -30,6 +30,7 @@ const (
 	sigF1item   = "F1: CAT/CATPUSHDATA changed another stack item (shared backing array)"
 	sigListSlot = "vm.Verify wrote a slot of the caller's Arguments / StateData list (the VM's stack is the caller's slice)"
 	sigTwice    = "running vm.Verify twice on the same context gives different answers"
+	sigProgBytes = "layout:program-bytes — the verdict depends on the bytes that follow the program / predicate slice in memory"
 )
 
 type c06slice struct{ arr, off, ln, cp int }
@@ -82,6 +83,55 @@ func c06build(c *Ctx, k *vmCase, kind string) *c06layout {
 			}
 			l.arrays = append(l.arrays, a)
 			sl = append(sl, c06slice{i, 0, len(it), len(it) + extra})
+		}
+	case "witness":
+		// the arguments as items of ONE decoded witness buffer (ReadVarstrList: count, then
+		// length-prefixed items, every item a sub-slice with capacity to the end of the buffer);
+		// the program in its own array followed by bytes that would complete a truncated
+		// instruction; everything else in exact-capacity arrays
+		nArgs := len(k.args)
+		wbuf := []byte{byte(nArgs)}
+		var woffs []int
+		for _, a := range k.args {
+			wbuf = append(wbuf, byte(len(a)))
+			woffs = append(woffs, len(wbuf))
+			wbuf = append(wbuf, a...)
+		}
+		wbuf = append(wbuf, 0x00, 0x01, 0x02) // the next field of the transaction
+		wbuf = append([]byte{}, wbuf...)
+		wbuf = wbuf[:len(wbuf):len(wbuf)]
+		for i, it := range items {
+			switch {
+			case i == 0:
+				a := append(cp(it), 0x00, 0x00, 0x00, 0x00, 0x51)
+				a = a[:len(a):len(a)]
+				l.arrays = append(l.arrays, a)
+				sl = append(sl, c06slice{len(l.arrays) - 1, 0, len(it), len(a)})
+			case i >= 1 && i <= nArgs:
+				if i == 1 {
+					l.arrays = append(l.arrays, wbuf)
+				}
+				sl = append(sl, c06slice{1, woffs[i-1], len(it), len(wbuf) - woffs[i-1]})
+			default:
+				l.arrays = append(l.arrays, cp(it))
+				sl = append(sl, c06slice{len(l.arrays) - 1, 0, len(it), len(it)})
+			}
+		}
+	case "complete":
+		// one buffer; every item is followed by 00 00 00 00 51 — bytes that complete a truncated
+		// JUMP / PUSHDATA at the end of the item
+		var buf []byte
+		var offs []int
+		for _, it := range items {
+			offs = append(offs, len(buf))
+			buf = append(buf, it...)
+			buf = append(buf, 0x00, 0x00, 0x00, 0x00, 0x51)
+		}
+		buf = append([]byte{}, buf...)
+		buf = buf[:len(buf):len(buf)]
+		l.arrays = [][]byte{buf}
+		for i, it := range items {
+			sl = append(sl, c06slice{0, offs[i], len(it), len(buf) - offs[i]})
 		}
 	case "shared", "guard":
 		var buf []byte
@@ -203,7 +253,7 @@ func (l *c06layout) context(k *vmCase) *vm.Context {
 	for _, s := range l.state {
 		state = append(state, l.slice(s))
 	}
-	mode := map[string]string{"fresh": "exact", "spare": "spare", "shared": "sub", "guard": "subtight"}[l.name]
+	mode := map[string]string{"fresh": "exact", "spare": "spare", "shared": "sub", "guard": "subtight", "witness": "spare", "complete": "sub"}[l.name]
 	ctx.Arguments, l.outerArgs = c06list(args, mode)
 	ctx.StateData, l.outerState = c06list(state, mode)
 	if l.asset != nil {
@@ -313,6 +363,93 @@ func c06program(c *Ctx, depth int) []byte {
 	return out
 }
 
+// c06truncTail: an instruction whose operand bytes are cut off by the end of the program:
+// JUMP / JUMPIF with 0..3 operand bytes, PUSHDATA1/2/4 with missing length bytes or a length
+// reaching 1..3 bytes past the end, DATA_n short by 1..3 bytes.
+func c06truncTail(c *Ctx) []byte {
+	r := c.Rng
+	rb := func(n int) []byte { b := make([]byte, n); r.Read(b); return b }
+	switch r.Intn(8) {
+	case 0, 1:
+		return append([]byte{0x63}, rb(r.Intn(4))...)
+	case 2:
+		return append([]byte{0x51, 0x64}, rb(r.Intn(4))...)
+	case 3:
+		if r.Intn(3) == 0 {
+			return []byte{0x4c}
+		}
+		n := 3 + r.Intn(4)
+		return append([]byte{0x4c, byte(n)}, rb(n-1-r.Intn(3))...)
+	case 4:
+		if r.Intn(2) == 0 {
+			return append([]byte{0x4d}, rb(r.Intn(2))...)
+		}
+		n := 3 + r.Intn(4)
+		return append([]byte{0x4d, byte(n), 0}, rb(n-1-r.Intn(3))...)
+	case 5:
+		if r.Intn(2) == 0 {
+			return append([]byte{0x4e}, rb(r.Intn(4))...)
+		}
+		n := 3 + r.Intn(4)
+		return append([]byte{0x4e, byte(n), 0, 0, 0}, rb(n-1-r.Intn(3))...)
+	default:
+		n := 3 + r.Intn(6)
+		return append([]byte{byte(n)}, rb(n-1-r.Intn(3))...)
+	}
+}
+
+// c06truncCase: the truncated instruction ends the program itself, a predicate handed over as a
+// witness argument (`0 SWAP 0 CHECKPREDICATE`), or a predicate pushed by the program.
+func c06truncCase(c *Ctx) *vmCase {
+	r := c.Rng
+	k := &vmCase{vmVersion: 1, limit: 20000, entryID: make([]byte, 32), txVersion: u64p(1)}
+	r.Read(k.entryID)
+	body := [][]byte{{}, {0x51}, {0x51, 0x51, 0x93}, {0x00}, {0x61}}[r.Intn(5)]
+	tail := c06truncTail(c)
+	prog := append(cp(body), tail...)
+	extra := func() {
+		for i := r.Intn(3); i > 0; i-- {
+			b := make([]byte, r.Intn(6))
+			r.Read(b)
+			k.args = append(k.args, b)
+		}
+	}
+	switch r.Intn(3) {
+	case 0: // the program itself
+		extra()
+		k.code = prog
+	case 1: // predicate as (the last) witness argument
+		extra()
+		k.args = append(k.args, prog)
+		k.code = []byte{0x00, 0x7c, 0x00, 0xc0}
+		if r.Intn(2) == 0 {
+			k.code = append(k.code, 0x75, 0x51)
+		}
+	default: // predicate pushed by the program (an exact-capacity copy in every layout)
+		extra()
+		k.code = append(append([]byte{0x00}, vm.PushDataBytes(prog)...), 0x00, 0xc0)
+	}
+	return k
+}
+
+// c06hasTruncated: the program or one of the arguments (a possible predicate) does not parse
+func c06hasTruncated(k *vmCase) (res bool) {
+	defer func() {
+		if recover() != nil { // a parser that reads past the slice end
+			res = true
+		}
+	}()
+	if _, err := vm.ParseProgram(k.code); err != nil {
+		return true
+	}
+	for _, a := range k.args {
+		if _, err := vm.ParseProgram(a); err != nil {
+			return true
+		}
+	}
+	return false
+}
+
 func c06case(c *Ctx) *vmCase {
 	r := c.Rng
 	k := &vmCase{vmVersion: 1, limit: 20000, entryID: make([]byte, 32), txVersion: u64p(1)}
@@ -382,7 +519,7 @@ func c06catCheck(text string, args [][]byte) string {
 
 func c06one(c *Ctx, k *vmCase, tag string) {
 	var first string
-	for _, kind := range []string{"fresh", "spare", "shared", "guard"} {
+	for _, kind := range []string{"fresh", "spare", "shared", "guard", "witness", "complete"} {
 		l := c06build(c, k, kind)
 		before := make([][]byte, len(l.arrays))
 		for i := range l.arrays {
@@ -430,13 +567,17 @@ func c06one(c *Ctx, k *vmCase, tag string) {
 				failCapped(c, sigF1item, bad)
 			}
 		} else if res.line != first {
-			failCapped(c, sigF1layout, fmt.Sprintf("fresh: %s   %s: %s", first, kind, res.line))
+			sig := sigF1layout
+			if tag == "trunc" || c06hasTruncated(k) {
+				sig = sigProgBytes
+			}
+			failCapped(c, sig, fmt.Sprintf("code=%x args=%s  fresh: %s   %s: %s", k.code, hxList(k.args), first, kind, res.line))
 		}
 	}
 }
 
 func runC06(c *Ctx) {
-	c.Rule = "programs over the aliasing-relevant alphabet (pushes, DUP/OVER/2DUP/IFDUP/TUCK/PICK, LEFT/RIGHT/SUBSTR, CAT/CATPUSHDATA, SWAP/ROT/alt stack, PROGRAM/ENTRYID/ASSET/OUTPUTID/TXSIGHASH, hashes, INVERT, nested CHECKPREDICATE whose predicate and arguments are stack items, the chain DUP 1 LEFT x CAT), 40% of the programs start with (or consist of) a write that stays inside the supplied stacks (SWAP, NIP NIP, ROT, DROP 1, INVERT, SHA256 <digest> EQUAL, FROMALTSTACK 1ADD TOALTSTACK, 1ADD …); 1..4 arguments, 0..2 state items; each program in four memory layouts of the bytes (fresh / spare capacity / one shared buffer / shared buffer with guard bytes) combined with four layouts of the argument and state LISTS (exact / spare capacity behind the list / sub-slice of a longer list with and without capacity); after each run the caller's byte arrays and every slot of the caller's lists are compared with snapshots and the same context is verified a second time; a case is distinct by its op line"
+	c.Rule = "programs over the aliasing-relevant alphabet (pushes, DUP/OVER/2DUP/IFDUP/TUCK/PICK, LEFT/RIGHT/SUBSTR, CAT/CATPUSHDATA, SWAP/ROT/alt stack, PROGRAM/ENTRYID/ASSET/OUTPUTID/TXSIGHASH, hashes, INVERT, nested CHECKPREDICATE whose predicate and arguments are stack items, the chain DUP 1 LEFT x CAT), 40% of the programs start with (or consist of) a write that stays inside the supplied stacks (SWAP, NIP NIP, ROT, DROP 1, INVERT, SHA256 <digest> EQUAL, FROMALTSTACK 1ADD TOALTSTACK, 1ADD …); 1..4 arguments, 0..2 state items; a quarter of the cases are programs / predicates (run from a witness argument by `0 SWAP 0 CHECKPREDICATE` or pushed) that END IN A TRUNCATED INSTRUCTION (JUMP/JUMPIF with 0..3 operand bytes, PUSHDATA1/2/4 with missing length bytes or a length reaching 1..3 bytes past the end, DATA_n short by 1..3); each program in six memory layouts of the bytes (fresh exact capacity / spare capacity / one shared buffer / shared buffer with guard bytes / arguments as items of one ReadVarstrList-style witness buffer with the program followed by completing bytes / one buffer where every item is followed by bytes completing the instruction) combined with four layouts of the argument and state LISTS (exact / spare capacity behind the list / sub-slice of a longer list with and without capacity); after each run the caller's byte arrays and every slot of the caller's lists are compared with snapshots and the same context is verified a second time; a case is distinct by its op line"
 	lines := c.CorpusLines()
 	if c.Replay != "" {
 		lines = c.ReplayLines()
@@ -453,6 +594,10 @@ func runC06(c *Ctx) {
 		return
 	}
 	for i := 0; i < c.N; i++ {
+		if i%4 == 3 {
+			c06one(c, c06truncCase(c), "trunc")
+			continue
+		}
 		c06one(c, c06case(c), "grammar")
 	}
 }
